@@ -204,7 +204,11 @@ def scn_history(ctx):
     ctx.describe.update(table_version=v0, n_ops=n_ops, pool=len(_pool(v0, tier)["E"]))
     ctx.log(f"history table={v0} ops={n_ops}")
     kinds_seen = set()
+    held = histsim.Held()
     for opi in range(n_ops):
+        ch_h = held.changed()
+        if ch_h is not None:
+            raise Violation("c05.result_overwritten", f"the array returned by {ch_h[1]} at op {ch_h[0]} changed while the caller held it (it was overwritten by a later call, op {opi - 1})", sig="result-aliasing")
         v, obj = objs[ch.draw(len(objs), "object")]
         P = _pool(v, tier)
         m = len(P["E"])
@@ -229,12 +233,21 @@ def scn_history(ctx):
             idx = histsim.draw_indices(ch, m, 32)
             name = "reject"
         else:  # 5: bring another object into play: same version, or another shipped version
-            if len(objs) < 4:
-                nv = v0 if ch.draw(3, "other_version") == 0 else VERSIONS[ch.draw(3, "new_version")]
+            nv = v0 if ch.draw(3, "other_version") == 0 else VERSIONS[ch.draw(3, "new_version")]
+            if len(objs) < 4 and ch.draw(2, "replace_object") == 0:
                 objs.append((nv, Taus(_config(nv))))
-                memos.setdefault(nv, {})
-                ctx.probes["second_object" if nv == v0 else "object_of_other_version"] += 1
                 ctx.log(f"op{opi} new-object table={nv} n={len(objs)}")
+            else:
+                # drop an object and build another in its place: whatever the old one left in
+                # process-wide caches (keyed by name, by id(), ...) is now stale
+                k = ch.draw(len(objs), "replace_which")
+                old_v = objs[k][0]
+                objs[k] = None
+                objs[k] = (nv, Taus(_config(nv)))
+                ctx.probes["object_dropped_and_replaced"] += 1
+                ctx.log(f"op{opi} replace-object #{k} table {old_v}->{nv}")
+            memos.setdefault(nv, {})
+            ctx.probes["second_object" if nv == v0 else "object_of_other_version"] += 1
             continue
         kinds_seen.add(name)
         idx = np.asarray(idx)
@@ -285,6 +298,7 @@ def scn_history(ctx):
             got = obj.tau_exit_prob(B, E)
             ctx.log(f"op{opi} {name} n={len(idx)} first={int(idx[0])} cats={sorted(set(P['cat'][i] for i in idx[:50].tolist()))}")
             _check_values(ctx, v, P, idx, got, memo, name, opi)
+            held.hold(opi, name, [got])
         elif name == "tau_energy":
             with histsim.constant_stream():
                 obj.tau_energy(B, E)
@@ -306,9 +320,10 @@ def scn_history(ctx):
         if asked.size:
             got = Taus(_config(v)).tau_exit_prob(np.array(P["B"][asked]), np.array(P["E"][asked]))
             _check_values(ctx, v, P, asked, got, memo, f"fresh-object[table {v}]", n_ops)
-            first = next(o for (vv, o) in objs if vv == v)
-            got = first.tau_exit_prob(np.array(P["B"][asked]), np.array(P["E"][asked]))
-            _check_values(ctx, v, P, asked, got, memo, f"first-object-at-end[table {v}]", n_ops)
+            first = next((o for (vv, o) in objs if vv == v), None)
+            if first is not None:
+                got = first.tau_exit_prob(np.array(P["B"][asked]), np.array(P["E"][asked]))
+                _check_values(ctx, v, P, asked, got, memo, f"first-object-at-end[table {v}]", n_ops)
             cats |= set(P["cat"][i] for i in asked.tolist())
     ctx.log(f"end asked={total} kinds={sorted(kinds_seen)} tables={sorted(memos)}")
     asked = np.zeros(total)
